@@ -170,6 +170,8 @@ inline void GenZoo(Source& s, Lane l, Zoo& z, const ZooGenCfg& g)
 		for (auto& x : z.uset) { z.usetAlt.emplace_back(x); if (s.chance(l, 1, 3)) z.usetAlt.emplace_back(std::nullopt); }
 		if (z.usetAlt.empty() || s.chance(l, 1, 3)) z.usetAlt.insert(z.usetAlt.begin(), std::nullopt);
 		for (auto x : z.mset) { z.msetAlt.emplace_back(x); if (s.chance(l, 1, 3)) z.msetAlt.emplace_back(std::nullopt); }
+		// objects inside a sequence container whose document lacks a member (elements are not fields: a reused element must not keep it)
+		for (auto& in : z.vobj) in.omitB = s.chance(l, 1, 2);
 		if (z.msetAlt.empty() || s.chance(l, 1, 3)) z.msetAlt.emplace_back(std::nullopt);
 	}
 	if (g.jumboMember >= 0 && g.archive != A_CSV && s.chance(l, 1, g.jumboOneIn)) MakeJumbo(s, l, z, g.jumboMember);
